@@ -137,6 +137,8 @@ impl<T> Block<T> {
         // - We're writing an initialized value into the slot before anyone is able to ever read
         //   it, ensuring no uninitialized access.
         unsafe {
+            #[cfg(metrics_verif)]
+            metrics::verif::point("slot_write", self as *const _ as usize);
             // Update the slot.
             self.slots.get_unchecked(index).assume_init_ref().get().write(value);
         }
